@@ -22,6 +22,11 @@ pub enum Tier {
 #[derive(Clone, Debug, PartialEq, Eq, Serialize, Deserialize)]
 pub struct PlainCase {
     pub property: String,
+    /// top-left corner of the target's bounding box
+    #[serde(default)]
+    pub ox: i32,
+    #[serde(default)]
+    pub oy: i32,
     pub w: u32,
     pub h: u32,
     /// 0 Rgb565, 1 Rgb666, 2 Rgb888
@@ -392,7 +397,7 @@ fn judge_plain(c: &PlainCase) -> Judged {
     let n = (c.w * c.h) as usize;
     macro_rules! go {
         ($C:ty) => {{
-            let mut t = timg::PlainTarget::<$C> { w: c.w, h: c.h, cells: vec![crate::mem::UNTOUCHED; n], discarded: 0, to_raw: timg::rgb_to_raw24::<$C> };
+            let mut t = timg::PlainTarget::<$C> { ox: c.ox, oy: c.oy, w: c.w, h: c.h, cells: vec![crate::mem::UNTOUCHED; n], discarded: 0, to_raw: timg::rgb_to_raw24::<$C> };
             let r = crate::exec::guarded(|| {
                 let _ = TestImage::<$C>::new().draw(&mut t);
             });
@@ -541,7 +546,7 @@ pub fn class_key(rc: &ReplayCase) -> u64 {
             for op in c.ops.iter().take(10) {
                 match op {
                     XOp::Cmd { args, .. } => h.u64(1 | (args.len() as u64) << 4),
-                    XOp::Pixels { n, data } => h.u64(2 | (*n as u64) << 4 | ((data.len() as u64 / *n as u64).min(255)) << 8),
+                    XOp::Pixels { n, data, inexact } => h.u64(2 | (*n as u64) << 4 | ((data.len() as u64 / *n as u64).min(255)) << 8 | (*inexact as u64) << 20),
                     XOp::Repeat { n, count, pixel } => h.u64(3 | (*n as u64) << 4 | ((*count as u64).min(255)) << 8 | (pixel.iter().all(|w| *w == pixel[0]) as u64) << 20),
                     XOp::SetValue { v } => h.u64(4 | (*v as u64) << 4),
                 }
@@ -552,7 +557,7 @@ pub fn class_key(rc: &ReplayCase) -> u64 {
             }
         }
         ReplayCase::Plain(c) => {
-            h.u64(c.w as u64 | (c.h as u64) << 20 | (c.colour as u64) << 40);
+            h.u64(c.w as u64 | (c.h as u64) << 20 | (c.colour as u64) << 40 | ((c.ox != 0 || c.oy != 0) as u64) << 44);
         }
     }
     h.0
@@ -569,17 +574,17 @@ pub fn runs_for(prop: &str, tier: Tier) -> u64 {
         "C02" => (200_000, 4_000_000),
         "C03" => (150_000, 3_000_000),
         "C04" => (300_000, 6_000_000),
-        "C05" => (C05_EXHAUSTIVE_RUNS + 8_000, C05_EXHAUSTIVE_RUNS + 200_000),
+        "C05" => (C05_EXHAUSTIVE_RUNS + 30_000, C05_EXHAUSTIVE_RUNS + 600_000),
         "C06" => (1_000_000, 20_000_000),
         "C07" => (1_000_000, 20_000_000),
         "C08" => (200_000, 4_000_000),
-        "C09" => (8_192 + 600_000, 8_192 + 20_000_000),
+        "C09" => (8_192 + 2_000_000, 8_192 + 40_000_000),
         "C10" => (150_000, 3_000_000),
-        "C11" => (10_752 + 30_000, 10_752 + 1_000_000),
+        "C11" => (10_752 + 150_000, 10_752 + 3_000_000),
         "C12" => (1_200, 20_000),
         "C13" => (200_000, 4_000_000),
-        "C16" => (400_000, 8_000_000),
-        "C17" => (40_000, 1_000_000),
+        "C16" => (1_000_000, 20_000_000),
+        "C17" => (300_000, 6_000_000),
         "C19" => (if batch { 48 * 48 + 49 * 49 * 3 + 1_200 } else { 600 }, if batch { 96 * 96 + 97 * 97 * 3 + 30_000 } else { 10_000 }),
         "C20" => (200_000, 4_000_000),
         _ => (0, 0),
@@ -605,7 +610,7 @@ pub fn runs_for(prop: &str, tier: Tier) -> u64 {
         match prop {
             "C01" | "C02" | "C08" | "C10" | "C20" => n / 2,
             "C03" => n / 10,
-            "C05" | "C09" | "C11" | "C17" | "C19" => n.min(if tier == Tier::Quick { 12_000 } else { 200_000 }),
+            "C05" | "C09" | "C11" | "C17" | "C19" => n.min(if tier == Tier::Quick { 30_000 } else { 500_000 }),
             "C06" | "C07" => 0,
             "C12" => n / 3,
             _ => n / 5,
@@ -1151,10 +1156,23 @@ pub fn run_index(prop: &str, idx: u64, vseed: u64, tier: Tier) -> RunResult {
                 }
             }
             let mut case = mk_case(prop, seed, cfg, program);
-            if case.config.rst && rng.chance(1, 6) {
-                // a failing reset-pin operation: init must not carry on with reset held
-                let kind = if rng.coin() { FaultKind::PinFailNoEffect } else { FaultKind::PinFailWithEffect };
-                case.faults = vec![Fault { llop: rng.below(2), kind }];
+            if case.program.len() > 1 && rng.chance(1, 3) {
+                // an earlier call of the history fails; the later restart must still begin with
+                // a proper reset as the controller sees it
+                let dry = exec_case(&case, &ExecOpt::default());
+                if dry.violation.is_none() && dry.skipped.is_none() && dry.harness_error.is_none() {
+                    let first_re = case.program.iter().position(|o| matches!(o, Op::Reinit { .. })).unwrap_or(0);
+                    let ranges: Vec<(u64, u64)> = dry.op_llops.iter().take(first_re).copied().collect();
+                    case.faults = gen_faults(&mut rng, case.config.transport, &ranges, 1);
+                }
+            } else if rng.chance(1, 6) {
+                // a failing operation inside the reset itself: if init claims success all the
+                // same, the reset pattern must still hold (reset line released / exactly one
+                // software reset)
+                let kinds = fault_kinds(case.config.transport);
+                let kind = *rng.pick(&kinds);
+                let span = if case.config.rst { 2 } else { 5 };
+                case.faults = vec![Fault { llop: rng.below(span), kind }];
                 case.program.clear();
             }
             one(&mut r, ReplayCase::Display(case));
@@ -1368,7 +1386,7 @@ fn run_c19(r: &mut RunResult, prop: &str, idx: u64, seed: u64, rng: &mut Rng, ti
         let k2 = k / 3;
         let w = (k2 % (lim + 1)) as u32;
         let h = (k2 / (lim + 1)) as u32;
-        let rc = ReplayCase::Plain(PlainCase { property: prop.into(), w, h, colour });
+        let rc = ReplayCase::Plain(PlainCase { property: prop.into(), ox: 0, oy: 0, w, h, colour });
         let key = class_key(&rc);
         let j = judge(&rc);
         absorb(r, rc, j, key);
@@ -1393,7 +1411,9 @@ fn run_c19(r: &mut RunResult, prop: &str, idx: u64, seed: u64, rng: &mut Rng, ti
             let w = *rng.pick(&[0u32, 1, 31, 32, 33, 97, 128, 255, 256, 500, 1000, 2048]);
             let h = *rng.pick(&[0u32, 1, 31, 32, 33, 97, 128, 255, 256, 500, 1000, 2048]);
             let (w, h) = if rng.chance(1, 10) { (if rng.coin() { 65535 } else { 33 }, if rng.coin() { 33 } else { 40 }) } else { (w, h) };
-            let rc = ReplayCase::Plain(PlainCase { property: prop.into(), w, h, colour: rng.below(3) as u8 });
+            // a draw target need not start at the origin
+            let (ox, oy) = if rng.coin() { (0, 0) } else { (rng.range(-300, 300) as i32, rng.range(-300, 300) as i32) };
+            let rc = ReplayCase::Plain(PlainCase { property: prop.into(), ox, oy, w, h, colour: rng.below(3) as u8 });
             let key = class_key(&rc);
             let j = judge(&rc);
             absorb(r, rc, j, key);
